@@ -138,7 +138,7 @@ def compute_features_2d(sigs, fs, f_range, compute_features_kwargs=None, axis=0,
         dfs_features = epoch_df(df_flat, len(sig_flat), len(sigs[0]))
 
          # Apply different thresholds if specified
-        if len(kwargs) > 0:
+        if len(kwargs) > 1:
 
             for idx, compute_kwargs in enumerate(kwargs):
 
